@@ -555,8 +555,8 @@ func (this *LedgerStoreImp) SubmitBlock(block *types.Block, result store.Execute
 	if blockHeight != nextBlockHeight {
 		return fmt.Errorf("block height %d not equal next block height %d", blockHeight, nextBlockHeight)
 	}
-	var err error
-	this.vbftPeerInfoblock, err = this.verifyHeader(block.Header, this.vbftPeerInfoblock)
+	// the validator set announced by this block takes effect only once the block has really been saved
+	peerInfo, err := this.verifyHeader(block.Header, this.vbftPeerInfoblock)
 	if err != nil {
 		return fmt.Errorf("verifyHeader error %s", err)
 	}
@@ -565,6 +565,7 @@ func (this *LedgerStoreImp) SubmitBlock(block *types.Block, result store.Execute
 	if err != nil {
 		return fmt.Errorf("saveBlock error %s", err)
 	}
+	this.vbftPeerInfoblock = peerInfo
 	this.delHeaderCache(block.Hash())
 	return nil
 }
@@ -581,8 +582,8 @@ func (this *LedgerStoreImp) AddBlock(block *types.Block, stateMerkleRoot common.
 	if blockHeight != nextBlockHeight {
 		return fmt.Errorf("block height %d not equal next block height %d", blockHeight, nextBlockHeight)
 	}
-	var err error
-	this.vbftPeerInfoblock, err = this.verifyHeader(block.Header, this.vbftPeerInfoblock)
+	// the validator set announced by this block takes effect only once the block has really been saved
+	peerInfo, err := this.verifyHeader(block.Header, this.vbftPeerInfoblock)
 	if err != nil {
 		return fmt.Errorf("verifyHeader error %s", err)
 	}
@@ -590,6 +591,10 @@ func (this *LedgerStoreImp) AddBlock(block *types.Block, stateMerkleRoot common.
 	err = this.saveBlock(block, stateMerkleRoot)
 	if err != nil {
 		return fmt.Errorf("saveBlock error %s", err)
+	}
+	// saveBlock also returns nil without saving (another save in progress, stale height)
+	if this.GetCurrentBlockHash() == block.Hash() {
+		this.vbftPeerInfoblock = peerInfo
 	}
 	this.delHeaderCache(block.Hash())
 	return nil
